@@ -64,3 +64,159 @@ pub open spec fn block_writes(b: il::Block, s: il::Scalar) -> bool {
         }
     }
 //@ end
+
+/// block `k` of `cfg` holds an instruction that writes `s`
+pub open spec fn mutated_at(cfg: il::ControlFlowGraph, s: il::Scalar, k: usize) -> bool {
+    cfg.has_block(k) && block_writes(cfg.blocks_view()[k], s)
+}
+
+/// one of the first `n` listed blocks has index `k` and writes `s`
+pub open spec fn mutated_in_prefix(bs: Seq<&il::Block>, n: int, s: il::Scalar, k: usize) -> bool {
+    exists|i: int| 0 <= i < n && i < bs.len() && (#[trigger] bs[i]).index == k && block_writes(*bs[i], s)
+}
+
+pub open spec fn listed_before(refs: Seq<&&il::Scalar>, n: int, s: il::Scalar) -> bool {
+    exists|j: int| 0 <= j < n && j < refs.len() && **(#[trigger] refs[j]) == s
+}
+
+/// the set `set` holds exactly the scalars block `b` writes and `refs` lists it: a scalar is listed iff the block writes it
+pub proof fn lemma_listed_full(refs: Seq<&&il::Scalar>, set: Set<&il::Scalar>, b: il::Block)
+    requires
+        graph::seq_lists_set_ref(refs, set),
+        forall|s: &il::Scalar| #![trigger set.contains(s)] set.contains(s) <==> block_writes(b, *s),
+    ensures
+        forall|s: il::Scalar| #![trigger block_writes(b, s)] listed_before(refs, refs.len() as int, s) <==> block_writes(b, s),
+{
+    graph::lemma_seq_lists_set_ref(refs, set);
+    assert forall|s: il::Scalar| #![trigger block_writes(b, s)] listed_before(refs, refs.len() as int, s) <==> block_writes(b, s) by {
+        if listed_before(refs, refs.len() as int, s) {
+            let j = choose|j: int| 0 <= j < refs.len() && **(#[trigger] refs[j]) == s;
+            assert(set.contains(*refs[j]));
+        }
+        if block_writes(b, s) {
+            assert(set.contains(&s));
+            let j = choose|j: int| 0 <= j < refs.len() && *(#[trigger] refs[j]) == &s;
+            assert(**refs[j] == s);
+        }
+    }
+}
+
+/// a complete, duplicate-free listing of the blocks: "some listed block with index k writes s" is "block k of cfg writes s"
+pub proof fn lemma_prefix_full(cfg: il::ControlFlowGraph, bs: Seq<&il::Block>)
+    requires cfg.graph.lists_vertices(bs, |k: usize| true),
+    ensures forall|s: il::Scalar, k: usize| #![trigger mutated_at(cfg, s, k)] mutated_in_prefix(bs, bs.len() as int, s, k) <==> mutated_at(cfg, s, k),
+{
+    assert forall|s: il::Scalar, k: usize| #![trigger mutated_at(cfg, s, k)] mutated_in_prefix(bs, bs.len() as int, s, k) <==> mutated_at(cfg, s, k) by {
+        if mutated_in_prefix(bs, bs.len() as int, s, k) {
+            let i = choose|i: int| 0 <= i < bs.len() && (#[trigger] bs[i]).index == k && block_writes(*bs[i], s);
+            assert(cfg.graph.vertices@.contains_key(bs[i].index_spec()) && *bs[i] == cfg.graph.vertices@[bs[i].index_spec()]);
+        }
+        if mutated_at(cfg, s, k) {
+            let ids = |k: usize| true;
+            assert(ids(k) && cfg.graph.vertices@.contains_key(k));
+            let i = choose|i: int| 0 <= i < bs.len() && (#[trigger] bs[i]).index_spec() == k;
+            assert(*bs[i] == cfg.graph.vertices@[bs[i].index_spec()]);
+        }
+    }
+}
+
+/// what the table under construction records: the pairs of the first `n` listed blocks, plus (cur, s) for the first `j` listed scalars
+pub open spec fn table_is(m: Map<il::Scalar, HashSet<usize>>, bs: Seq<&il::Block>, n: int, cur: usize, refs: Seq<&&il::Scalar>, j: int) -> bool {
+    forall|s: il::Scalar, k: usize| #![trigger m[s]@.contains(k)] (m.contains_key(s) && m[s]@.contains(k)) <==>
+        (mutated_in_prefix(bs, n, s, k) || (k == cur && listed_before(refs, j, s)))
+}
+
+pub proof fn lemma_table_next_block(m: Map<il::Scalar, HashSet<usize>>, bs: Seq<&il::Block>, n: int, refs: Seq<&&il::Scalar>, set: Set<&il::Scalar>)
+    requires
+        0 <= n < bs.len(),
+        graph::seq_lists_set_ref(refs, set),
+        forall|s: &il::Scalar| #![trigger set.contains(s)] set.contains(s) <==> block_writes(*bs[n], *s),
+        table_is(m, bs, n, bs[n].index, refs, refs.len() as int),
+    ensures
+        table_is(m, bs, n + 1, 0, Seq::<&&il::Scalar>::empty(), 0),
+{
+    lemma_listed_full(refs, set, *bs[n]);
+    assert forall|s: il::Scalar, k: usize| #![trigger m[s]@.contains(k)] (m.contains_key(s) && m[s]@.contains(k)) <==> mutated_in_prefix(bs, n + 1, s, k) by {
+        if mutated_in_prefix(bs, n + 1, s, k) && !mutated_in_prefix(bs, n, s, k) {
+            let i = choose|i: int| 0 <= i < n + 1 && i < bs.len() && (#[trigger] bs[i]).index == k && block_writes(*bs[i], s);
+            assert(i == n);
+        }
+        if k == bs[n].index && block_writes(*bs[n], s) { assert(bs[n].index == k && block_writes(*bs[n], s)); }
+        if mutated_in_prefix(bs, n, s, k) {
+            let i = choose|i: int| 0 <= i < n && i < bs.len() && (#[trigger] bs[i]).index == k && block_writes(*bs[i], s);
+            assert(0 <= i < n + 1);
+        }
+    }
+}
+
+//@ fn fn scalars_mutated_in_blocks loops=2
+//@ rewrite 1 `let mut mutated_in = HashMap::new();` => `let mut mutated_in: HashMap<il::Scalar, HashSet<usize>> = HashMap::new();` ## R-type-annot: writes down the type rustc infers for the local (it is the function's return type); needed because the invariant mentions it before the first insert
+//@ rewrite 1 `for block in cfg.blocks() {` => `for block in vf_it: cfg.blocks() {` ## R-ghost-iter-name: names the ghost iterator of the for loop so that invariants can mention it; no executable change
+//@ rewrite 1 `for scalar in scalars_mutated_in_block(block) {` => `let vf_set = scalars_mutated_in_block(block); for vf_r in vf_it2: vf_set.iter() { let scalar: &il::Scalar = *vf_r;` ## R-iter-copy: by-value iteration over a HashSet of Copy items (`&il::Scalar`) that is not used afterwards = by-reference iteration copying each item (Verus has no model of hash_set::IntoIter)
+//@ spec
+    requires cfg.graph.graph_wf(),
+    ensures
+        /*@exact*/ forall|s: il::Scalar, k: usize| #![trigger r@[s]@.contains(k)] (r@.contains_key(s) && r@[s]@.contains(k)) <==> mutated_at(*cfg, s, k),
+//@ loop 0
+    invariant
+        cfg.graph.graph_wf(),
+        cfg.graph.lists_vertices(vf_it.seq(), |k: usize| true),
+        table_is(mutated_in@, vf_it.seq(), vf_it.index@ as int, 0, Seq::<&&il::Scalar>::empty(), 0),
+        vf_it.index@ == vf_it.seq().len() ==> (forall|s: il::Scalar, k: usize| #![trigger mutated_in@[s]@.contains(k)] (mutated_in@.contains_key(s) && mutated_in@[s]@.contains(k)) <==> mutated_at(*cfg, s, k)),
+//@ before 0 `for block in vf_it`
+    proof {
+        assert forall|bs: Seq<&il::Block>| #![trigger cfg.graph.lists_vertices(bs, |k: usize| true)] cfg.graph.lists_vertices(bs, |k: usize| true) implies
+            (forall|s: il::Scalar, k: usize| #![trigger mutated_at(*cfg, s, k)] mutated_in_prefix(bs, bs.len() as int, s, k) <==> mutated_at(*cfg, s, k)) by {
+            lemma_prefix_full(*cfg, bs);
+        }
+    }
+//@ before 0 `for vf_r in`
+    let ghost vf_k = vf_it.index@ as int;
+    let ghost vf_bs = vf_it.seq();
+    proof {
+        assert(*block == *vf_bs[vf_k]);
+        assert forall|refs: Seq<&&il::Scalar>| #![trigger graph::seq_lists_set_ref(refs, vf_set@)] graph::seq_lists_set_ref(refs, vf_set@) && table_is(mutated_in@, vf_bs, vf_k, block.index, refs, refs.len() as int)
+            implies table_is(mutated_in@, vf_bs, vf_k + 1, 0, Seq::<&&il::Scalar>::empty(), 0) by {
+            lemma_table_next_block(mutated_in@, vf_bs, vf_k, refs, vf_set@);
+        }
+    }
+//@ loop 1
+    invariant
+        0 <= vf_k < vf_bs.len(),
+        *block == *vf_bs[vf_k],
+        forall|s: &il::Scalar| #![trigger vf_set@.contains(s)] vf_set@.contains(s) <==> block_writes(*vf_bs[vf_k], *s),
+        graph::seq_lists_set_ref(vf_it2.seq(), vf_set@),
+        table_is(mutated_in@, vf_bs, vf_k, block.index, vf_it2.seq(), vf_it2.index@ as int),
+        vf_it2.index@ == vf_it2.seq().len() ==> table_is(mutated_in@, vf_bs, vf_k + 1, 0, Seq::<&&il::Scalar>::empty(), 0),
+//@ before 0 `if !mutated_in.contains_key(scalar)`
+    let ghost vf_m0 = mutated_in@;
+    let ghost vf_j = vf_it2.index@ as int;
+    proof { assert(**vf_it2.seq()[vf_j] == *scalar); }
+//@ after 0 `mutated_in.get_mut(scalar).unwrap().insert(block.index());`
+    proof {
+        let refs = vf_it2.seq();
+        assert forall|s: il::Scalar, k: usize| #![trigger mutated_in@[s]@.contains(k)] (mutated_in@.contains_key(s) && mutated_in@[s]@.contains(k)) <==>
+            (mutated_in_prefix(vf_bs, vf_k, s, k) || (k == block.index && listed_before(refs, vf_j + 1, s))) by {
+            if s == *scalar {
+                assert(**refs[vf_j] == s);
+                if listed_before(refs, vf_j, s) {
+                    let j = choose|j: int| 0 <= j < vf_j && j < refs.len() && **(#[trigger] refs[j]) == s;
+                    assert(0 <= j < vf_j + 1);
+                }
+                if vf_m0.contains_key(s) { assert(vf_m0[s]@.contains(k) == (mutated_in_prefix(vf_bs, vf_k, s, k) || (k == block.index && listed_before(refs, vf_j, s)))); }
+            } else {
+                assert(mutated_in@.contains_key(s) == vf_m0.contains_key(s));
+                if vf_m0.contains_key(s) { assert(mutated_in@[s] == vf_m0[s]); assert(vf_m0[s]@.contains(k) == mutated_in@[s]@.contains(k)); }
+                if listed_before(refs, vf_j + 1, s) {
+                    let j = choose|j: int| 0 <= j < vf_j + 1 && j < refs.len() && **(#[trigger] refs[j]) == s;
+                    assert(j != vf_j);
+                    assert(0 <= j < vf_j);
+                }
+                if listed_before(refs, vf_j, s) {
+                    let j = choose|j: int| 0 <= j < vf_j && j < refs.len() && **(#[trigger] refs[j]) == s;
+                    assert(0 <= j < vf_j + 1);
+                }
+            }
+        }
+    }
+//@ end
